@@ -24,4 +24,6 @@ KeysAreFields == /\ ToSet(C.record_keys) = Keys({"f", "tail"}, C.descriptors)
                  /\ (~C.islist => C.shape = Shape(C.T, C.isnone))
 \* without descriptors the lines remain readable as records with the same scalar JSON values
 PlainLinesReadable == ~C.descriptors => (~C.raised /\ C.scalars_equal)
+\* ... typed line by line from the JSON value of each key
+PlainTyped == (~C.descriptors /\ ~C.raised /\ C.plain_checked) => C.plain_type = PlainFieldType(C.plain_shape)
 =============================================================================
